@@ -1,5 +1,8 @@
 import _crdt
-PROP = _crdt.prop("DefraModel.Props.C02", ["counter-sum", "register-not-latest", "deleted-status", "value-key-family", "panic", "event-on-failed-op"])
+PROP = _crdt.prop("DefraModel.Props.C02", ["counter-sum", "register-not-latest", "deleted-status", "value-key-family", "panic", "event-on-failed-op", "not-delivered"])
+# the repl engine (C15) also runs for C02: a commit pushed again after a first delivery that stored its head but did not
+# merge it (a sync cut short, a target that did not answer) must still be applied - nothing lost
+PROP["engines"] = PROP["engines"] + [dict(name="repl", drv="repl", timeout=5400)]
 META = dict(
     text="Lean theorems: counter = initial + sum of applied increments (one term per application), order-free; deleted iff some applied commit deletes, never resurrected; a register holds a written value that no applied write exceeds in (height, bytes), hence of greatest height; redelivery of a merged commit collects nothing. Tie as C01, with per-prefix oracles on the implementation (counter = sum over merged closure, register written at greatest merged height, deleted flag).",
     design_ref="DESIGN.md section 8, C01/C02/C04", note=_crdt.NOTE,
